@@ -135,6 +135,14 @@ def coq_monitor(c, name, traces):
     return res
 
 
+def report_once(c, X, key, what, rp):
+    """One report per key (the first concrete input is the replay)."""
+    if key in X.setdefault("reported", set()):
+        return
+    X["reported"].add(key)
+    c.report(key, what, rp)
+
+
 def describe(v):
     bad = []
     if not v[0]:
@@ -266,7 +274,13 @@ def sub_scripts(c, X):
                     alone.add(s)
     reps = 3 if quick else 10
     impl_multi = {}
-    for s in sorted(alone):
+    budget = 16 if quick else 200          # process launches for scripts that must run alone
+    skipped_alone = 0
+    for s in sorted(alone, key=lambda z: (len(z), z)):
+        if budget < reps:
+            skipped_alone += 1
+            continue
+        budget -= reps
         outs = []
         for _ in range(reps):
             res, rc, err = run_script_proc(c, X, [s])
@@ -304,10 +318,12 @@ def sub_scripts(c, X):
             owners.append((s, ob))
     verdicts = coq_monitor(c, "c12_script_mon", traces) if traces else []
     nbad = 0
+    seen_keys = set()
     for (s, ob), v in zip(owners, verdicts or []):
         if not all(v):
             nbad += 1
-            if nbad <= 2:
+            if describe(v) not in seen_keys:
+                seen_keys.add(describe(v))
                 c.report("script:" + describe(v),
                          "real StandardRoundTimer violates C12 on the disciplined caller script `%s`: outcomes %s (%s)" % (s, " ".join(ob), describe(v)),
                          {"script": s, "observed": ob, "model_outcomes": msets[scripts.index(s)] if msets else None,
@@ -322,7 +338,8 @@ def sub_scripts(c, X):
         "scripts": len(scripts), "scripts_disciplined": len(good), "scripts_malformed": len(bad),
         "script_runs_compared": n_cmp, "script_runs_with_schedule_independent_model_outcome": n_single,
         "script_mismatches": len(mismatches), "script_monitor_failures": nbad,
-        "scripts_run_in_own_process(model says may panic)": len(alone),
+        "scripts_run_in_own_process(model says may panic)": len(alone) - skipped_alone,
+        "scripts_skipped(launch budget)": skipped_alone,
     })
     for s in (good[:2] + bad[:2]):
         i = scripts.index(s)
@@ -373,7 +390,7 @@ def sub_stress(c, X):
         msg = re.search(r"panic: (.*)", d["stderr"])
         what = msg.group(1) if msg else "process died rc=%s" % d["rc"]
         key = "timer-panic:" + re.sub(r"[^A-Za-z]+", "-", what)[:60]
-        c.report(key, "real StandardRoundTimer: process died during disciplined cancel/start/fire rounds (GOMAXPROCS=%d): %s" % (p, what),
+        report_once(c, X, key, "real StandardRoundTimer: process died during disciplined cancel/start/fire rounds (GOMAXPROCS=%d): %s" % (p, what),
                  {"stress": small or {"procs": p, "rounds": per, "seed": seed}, "first_failure": d,
                   "ops": "each round: <Step>Timer(...) ; optional wait/poll ; cancel() ; immediately the next <Step>Timer(...)",
                   "how": "bin/h_c12 stress -procs %d -rounds %d -seed %d" % ((small or {}).get("procs", p), (small or {}).get("rounds", per), (small or {}).get("seed", seed))})
@@ -394,7 +411,7 @@ def sub_stress(c, X):
             if not all(v):
                 nfail += 1
                 where = {p: r["hist"][k] for p, r in results.items() if k in r["hist"]}
-                c.report("stress:" + describe(v),
+                report_once(c, X, "stress:" + describe(v),
                          "real StandardRoundTimer: round observation `%s` (%s) seen %s times per GOMAXPROCS" % (k, describe(v), where),
                          {"stress": {"procs": sorted(where)[0], "rounds": per, "seed": seed}, "round_observation": k,
                           "trace": round_trace(k), "counts": where,
@@ -403,23 +420,23 @@ def sub_stress(c, X):
         for tr, v in zip(prefixes, verdicts[len(keys):]):
             if not all(v) and not nfail:
                 nfail += 1
-                c.report("stress-prefix:" + describe(v), "monitor false on the first rounds of a stress run", {"trace": tr})
+                report_once(c, X, "stress-prefix:" + describe(v), "monitor false on the first rounds of a stress run", {"trace": tr})
     for p, r in sorted(results.items()):
         for k, n in r["hist"].items():
             if k.startswith("k0 ") and ("e0=1" in k or "e1=1" in k or "e2=1" in k or "late=1" in k):
-                c.report("stress:one-hour-timer-elapsed", "a 1h timer reported elapsed within milliseconds: %s x%d" % (k, n),
+                report_once(c, X, "stress:one-hour-timer-elapsed", "a 1h timer reported elapsed within milliseconds: %s x%d" % (k, n),
                          {"stress": {"procs": p, "rounds": per, "seed": seed}, "round_observation": k})
             if " w2 " in k:
-                c.report("stress:timer-never-elapsed", "a <=200us timer did not elapse within 10s: %s x%d" % (k, n),
+                report_once(c, X, "stress:timer-never-elapsed", "a <=200us timer did not elapse within 10s: %s x%d" % (k, n),
                          {"stress": {"procs": p, "rounds": per, "seed": seed}, "round_observation": k})
         if r["nil_start"] >= 0:
-            c.report("stress:nil-timer-without-ctx-cancel", "a *Timer call returned nil although the context is live (round %d)" % r["nil_start"],
+            report_once(c, X, "stress:nil-timer-without-ctx-cancel", "a *Timer call returned nil although the context is live (round %d)" % r["nil_start"],
                      {"stress": {"procs": p, "rounds": per, "seed": seed}})
         if not r["alive"]:
-            c.report("stress:timer-dead-after-stress", "after the rounds a 0s timer was not served/fired within 10s (GOMAXPROCS=%d)" % p,
+            report_once(c, X, "stress:timer-dead-after-stress", "after the rounds a 0s timer was not served/fired within 10s (GOMAXPROCS=%d)" % p,
                      {"stress": {"procs": p, "rounds": per, "seed": seed}})
         if not r["exited"]:
-            c.report("stress:goroutine-did-not-exit", "background goroutine did not exit within 10s of context cancellation (GOMAXPROCS=%d)" % p,
+            report_once(c, X, "stress:goroutine-did-not-exit", "background goroutine did not exit within 10s of context cancellation (GOMAXPROCS=%d)" % p,
                      {"stress": {"procs": p, "rounds": per, "seed": seed}})
     hist_all = {}
     for r in results.values():
